@@ -319,9 +319,68 @@ def part_avp_load(rep, arg):
     rep.add(evaluations=n, distinct=n, avp_runs=n)
 
 
+def part_registry(rep, arg):
+    """'Known (vendor, code) pairs are materialised as their dictionary class' while the dictionary grows: every
+    history over {decode pair A, decode pair B, define class for A, define class for B} of length <= 5 in which
+    each definition happens at most once (runs in its own forked shard: the classes stay defined afterwards)."""
+    import itertools as it
+    import struct
+    from bromelia.base import DiameterAVP
+    from bromelia.types import OctetStringType
+    n = 0
+    counter = [0]
+
+    def wire(vendor, code):
+        return refcodec.enc_avp((code, 0xc0, vendor, b"tag"))
+
+    def define(vendor, code):
+        counter[0] += 1
+        ns = {}
+        cname = f"VerifDyn{counter[0]}AVP"
+
+        def init(self, data):
+            DiameterAVP.__init__(self, type(self).code, type(self).vendor_id)
+            DiameterAVP.set_vendor_id_bit(self, True)
+            DiameterAVP.set_mandatory_bit(self, True)
+            OctetStringType.__init__(self, data=data, vendor_id=type(self).vendor_id)
+        return type(cname, (DiameterAVP, OctetStringType), {"code": struct.pack(">I", code), "vendor_id": struct.pack(">I", vendor),
+                                                            "__init__": init})
+    ops_all = ["decA", "decB", "defA", "defB"]
+    hist_no = 0
+    for ln in range(1, 6):
+        for hist_ in it.product(ops_all, repeat=ln):
+            if hist_.count("defA") > 1 or hist_.count("defB") > 1 or not any(o.startswith("dec") for o in hist_):
+                continue
+            hist_no += 1
+            pairs = {"A": (770000 + hist_no, 5000 + hist_no), "B": (880000 + hist_no, 6000 + hist_no)}   # fresh pairs per history
+            defined = {}
+            n += 1
+            for step, op in enumerate(hist_):
+                which = op[-1]
+                vendor, code = pairs[which]
+                if op.startswith("def"):
+                    defined[which] = define(vendor, code)
+                    continue
+                try:
+                    got = DiameterAVP.load(wire(vendor, code))
+                except BaseException as e:  # noqa
+                    rep.violation(f"C02:registry:decode-raises-{type(e).__name__}", f"history {hist_} step {step}: {e}",
+                                  {"part": "registry", "history": list(hist_)})
+                    break
+                want = defined[which].__name__ if which in defined else "DiameterAVP"
+                if len(got) != 1 or type(got[0]).__name__ != want or got[0].dump() != wire(vendor, code):
+                    rep.violation(f"C02:registry:{'stale-generic' if which in defined else 'not-generic'}",
+                                  f"history {hist_}: step {step} decoded pair {which} as {type(got[0]).__name__ if got else None}, "
+                                  f"the dictionary {'defines ' + want if which in defined else 'does not define it'} at that point",
+                                  {"part": "registry", "history": list(hist_)})
+                    break
+    rep.add(evaluations=n, distinct=n, registry_histories=n)
+    rep.sample({"registry_history": ["decA", "defA", "decA"]})
+
+
 def _shard(rep, arg):
     kind, payload = arg
-    {"classes": part_classes, "unknown": part_unknown, "headers": part_headers, "streams": part_streams,
+    {"registry": part_registry, "classes": part_classes, "unknown": part_unknown, "headers": part_headers, "streams": part_streams,
      "nesting": part_nesting, "avp-load": part_avp_load}[kind](rep, payload)
 
 
@@ -341,6 +400,7 @@ def run(report, tier, seed):
     shards.append(("streams", (4 if tier == "thorough" else 3,)))
     shards.append(("nesting", (3 if tier == "thorough" else 2, tier)))
     shards.append(("avp-load", None))
+    shards.append(("registry", None))
     core.run_shards(report, _shard, shards)
     if tier == "quick":
         report.note("quick: header product visits 2 of 16 residue classes of the full product "
@@ -350,6 +410,12 @@ def run(report, tier, seed):
 
 def replay(w):
     from bromelia.base import DiameterMessage, DiameterAVP
+    if w["part"] == "registry":
+        rep = core.Report("C02")
+        part_registry(rep, None)
+        for v in rep.violations.values():
+            print(v.signature, "|", v.what)
+        return bool(rep.violations)
     stream = bytes.fromhex(w["stream"])
     if w["part"] == "avp-load":
         want = refcodec.dec_avps(stream)
